@@ -63,6 +63,29 @@ def _params(u):
     return out
 
 
+def lock_free_service(ctx, rid: str) -> None:
+    """A child whose buffer holds items serves them without waiting for the lock (a lagging
+    child must not wait for a sibling that is blocked in the source while holding it)."""
+    u = ctx.inlined(ctx.unit("itertools.tee_peer"))
+    cfg = cfg_of(u)
+    P = _params(u)
+    main = [n for n in cfg.nodes if not n.tag and not any(k == "finally" for (k, _a) in n.regions)]
+    enters = [n for n in main if n.kind == "enter" and isinstance(n.info.get("cm"), ast.Name)
+              and n.info["cm"].id == P["lock"]]
+
+    def is_buffer_test(n: Node) -> bool:
+        return n.kind == "branch" and isinstance(n.ast, ast.Name) and n.ast.id == P["buffer"]
+
+    starts = [cfg.entry] + [n for n in main if n.kind == "yield"]
+    for e in enters:
+        for st in starts:
+            path = find_path(st, lambda x: x is e, avoid=lambda x: x.kind == "yield",
+                             edge_ok=lambda a, lab, b: lab not in ("e", "p", "h") and not (is_buffer_test(a) and lab == "f"))
+            ctx.check(path is None, rid, u, e,
+                      "the lock is only requested after the own buffer was found empty: buffered items are yielded "
+                      "without waiting for the lock", node=e, witness=pretty_path(path))
+
+
 def run(ctx) -> None:
     ctx.rule("R09.1", "source pull inside the async-with-lock region")
     ctx.rule("R09.2", "own buffer re-checked (empty branch) between lock acquisition and pull")
@@ -73,7 +96,7 @@ def run(ctx) -> None:
     ctx.rule("R09.7", "no other writer of buffers / shared list")
     ctx.assume("a coroutine runs without interleaving between two suspension points")
     ctx.assume("deque: append = right end, appendleft = left end, popleft = left end, pop = right end")
-    u = ctx.unit("itertools.tee_peer")
+    u = ctx.inlined(ctx.unit("itertools.tee_peer"))
     cfg = cfg_of(u)
     P = _params(u)
     src = f"{u.short}:{P['iterator']}"
@@ -91,6 +114,7 @@ def run(ctx) -> None:
     def is_buffer_test(n: Node) -> bool:
         return n.kind == "branch" and isinstance(n.ast, ast.Name) and n.ast.id == P["buffer"]
 
+    lock_free_service(ctx, "R09.2")
     for pull in pulls:
         # R09.1
         in_lock = [a for (k, a) in pull.regions if k == "with" and isinstance(a.context_expr, ast.Name)
@@ -158,6 +182,7 @@ def run(ctx) -> None:
     r09_5(ctx, P)
     c04.r04_5(_Relabel(ctx))
     r09_7(ctx, P)
+    r09_8(ctx)
     ctx.floor("pull_sites", 1)
     ctx.floor("tee_finally_copies", 2)
 
@@ -214,30 +239,90 @@ def _broadcast_loops(cfg, main, P, item_names) -> List[Node]:
 
 def r09_5(ctx, P) -> None:
     init = ctx.unit("itertools.Tee.__init__")
+    peer = ctx.unit("itertools.tee_peer")
     node = init.node
-    buffers_field = None
-    fresh = False
-    for s in own_nodes(node):
-        if isinstance(s, (ast.Assign, ast.AnnAssign)):
-            tgt = s.targets[0] if isinstance(s, ast.Assign) else s.target
-            val = s.value
-            if isinstance(tgt, ast.Attribute) and isinstance(val, ast.ListComp) and isinstance(val.elt, ast.Call) \
-                    and norm(val.elt.func) in ("deque", "collections.deque") and not val.elt.args:
-                buffers_field = tgt.attr
-                fresh = True
-    ctx.check(fresh, "R09.5", init, "buffer list", "the shared list consists of one fresh deque per child")
-    ok = False
-    for s in own_nodes(node):
-        if isinstance(s, ast.GeneratorExp) and isinstance(s.elt, ast.Call) and norm(s.elt.func) == ctx.unit("itertools.tee_peer").node.name:
-            kws = {k.arg: k.value for k in s.elt.keywords}
-            pos = dict(zip(["iterator", "buffer", "peers", "lock"], s.elt.args))
-            args = {P_key: kws.get(P[P_key], pos.get(P_key)) for P_key in ("buffer", "peers")}
-            g = s.generators[0]
-            ok = isinstance(g.target, ast.Name) and isinstance(args["buffer"], ast.Name) \
-                and args["buffer"].id == g.target.id and norm(g.iter) == f"self.{buffers_field}" \
-                and norm(args["peers"]) == f"self.{buffers_field}" and not g.ifs and len(s.generators) == 1
-    ctx.check(ok, "R09.5", init, "children", "each child gets its own element of the shared list as buffer and the "
-              "same shared list as peers (one child per buffer)")
+    me = init.param_names()[0]
+    parents = {}
+    for x in ast.walk(node):
+        for c in ast.iter_child_nodes(x):
+            parents[id(c)] = x
+    # every store ``a = b = <expr>`` / ``self.f = <expr>``: names and fields denoting the same object
+    bound = {}
+    for st in ast.walk(node):
+        if isinstance(st, ast.Assign):
+            tgts, val = st.targets, st.value
+        elif isinstance(st, ast.AnnAssign) and st.value is not None:
+            tgts, val = [st.target], st.value
+        else:
+            continue
+        for t in tgts:
+            key = t.id if isinstance(t, ast.Name) else f"{me}.{t.attr}" if isinstance(t, ast.Attribute) and norm(t.value) == me else None
+            if key:
+                bound.setdefault(key, []).append(val)
+
+    def obj(e, depth=0):
+        """the expression that created the object ``e`` denotes (through aliases)"""
+        key = e.id if isinstance(e, ast.Name) else f"{me}.{e.attr}" if isinstance(e, ast.Attribute) and norm(e.value) == me else None
+        if key and len(bound.get(key, [])) == 1 and depth < 4:
+            return obj(bound[key][0], depth + 1)
+        return e
+
+    def fresh_deques(e) -> bool:
+        return isinstance(e, ast.ListComp) and isinstance(e.elt, ast.Call) and norm(e.elt.func) in ("deque", "collections.deque") \
+            and not e.elt.args and not e.elt.keywords and len(e.generators) == 1 and not e.generators[0].ifs
+
+    names = peer.param_names()
+    calls = [c for c in ast.walk(node) if isinstance(c, ast.Call)
+             and ctx.pkg.resolve_expr_global(init.module, c.func).node is peer.node]
+    ctx.check(len(calls) == 1, "R09.5", init, "children", "the children are created in one place", witness=str(len(calls)))
+    for c in calls:
+        kws = {k.arg: k.value for k in c.keywords}
+        args = {key: kws.get(P[key], c.args[names.index(P[key])] if len(c.args) > names.index(P[key]) else None)
+                for key in ("buffer", "peers")}
+        shared = obj(args["peers"]) if args["peers"] is not None else None
+        ctx.check(shared is not None and fresh_deques(shared), "R09.5", init, c,
+                  "the shared list consists of one fresh deque per child", witness=norm(shared) if shared is not None else "")
+        # the buffer argument is the loop variable of a loop / comprehension over that same list
+        ok = False
+        if isinstance(args["buffer"], ast.Name) and shared is not None:
+            x = c
+            while id(x) in parents and not ok:
+                x = parents[id(x)]
+                gens = []
+                if isinstance(x, (ast.GeneratorExp, ast.ListComp)):
+                    gens = [(g.target, g.iter, bool(g.ifs)) for g in x.generators]
+                elif isinstance(x, ast.For):
+                    gens = [(x.target, x.iter, False)]
+                for tgt, it, filtered in gens:
+                    if isinstance(tgt, ast.Name) and tgt.id == args["buffer"].id:
+                        ok = obj(it) is shared and not filtered
+        ctx.check(ok, "R09.5", init, c, "each child gets its own element of the shared list as buffer and the "
+                  "same shared list as peers (one child per buffer)")
+
+
+def r09_8(ctx) -> None:
+    """The caller's lock is opaque: whether it is used depends only on it being given (``is
+    None``), never on its truth value (a lock object may well be falsy)."""
+    ctx.rule("R09.8", "the user's lock is never truth-tested: it is replaced by the no-op lock only when it is None")
+    for u in real_units(ctx):
+        if u.module.short != "itertools":
+            continue
+        cfg = cfg_of(u)
+        for n in cfg.nodes:
+            if n.kind != "op" or n.info.get("op") != "truth" or n.tag:
+                continue
+            for operand in n.info.get("operands", []):
+                for a in ctx.vals.expr(u, operand, n):
+                    if a[0] != "user":
+                        continue
+                    owner, _, pname = a[1].rpartition(":")
+                    ou = ctx.pkg.unit(owner) if ctx.pkg.has_unit(owner) else None
+                    ann = next((p.annotation for p in ou.params() if p.arg == pname), None) if ou is not None else None
+                    if ann is not None and "ACM" in roles_of_annotation(ann):
+                        ctx.fail("R09.8", u, n, f"the truth value of the caller's lock `{norm(operand)}` decides whether "
+                                 "it is used: a falsy lock object is silently replaced by the no-op lock and the "
+                                 "source is advanced concurrently", node=n)
+    ctx.ok("R09.8", "itertools", "no truth test of a lock parameter")
 
 
 def r09_7(ctx, P) -> None:
